@@ -55,7 +55,7 @@ fn node(depth: u32) -> BoxedStrategy<N> {
     let leaf = prop_oneof![6 => (0u8..6, crate::gen::nice(20), crate::gen::nice_pos(8)).prop_map(|(k, a, b)| N::Shape(k, a, b)), 2 => (-3..4i32).prop_map(N::Acc)];
     leaf.prop_recursive(depth, 30, 4, |inner| {
         let form = prop_oneof![
-            3 => (0u8..6, prop::option::of((prop_oneof![Just(0.0f32), Just(1.0), Just(-2.0), Just(0.5), Just(2.25)], prop_oneof![Just(1.0f32), Just(-1.0), Just(0.5), Just(-1.5), Just(3.0), Just(0.0)]))).prop_map(|(n, lv)| LoopForm::Count(n, lv)),
+            3 => (0u8..6, prop::option::of((prop_oneof![Just(0.0f32), Just(1.0), Just(-2.0), Just(0.5), Just(2.25), Just(0.0625)], prop_oneof![Just(1.0f32), Just(-1.0), Just(0.5), Just(-1.5), Just(3.0), Just(0.0), Just(0.0625), Just(0.03125)]))).prop_map(|(n, lv)| LoopForm::Count(n, lv)),
             1 => (0u8..5).prop_map(LoopForm::CountVar),
             2 => (0u8..5).prop_map(LoopForm::While),
             2 => (0u8..5).prop_map(LoopForm::Until),
@@ -67,7 +67,7 @@ fn node(depth: u32) -> BoxedStrategy<N> {
             2 => (vec(prop_oneof![Just("1"), Just("2"), Just("5"), Just("-3"), Just("0.5"), Just("10")], 1..5), any::<bool>(), vec(inner.clone(), 1..4)).prop_map(|(items, idx, b)| N::For(0, items.into_iter().map(|s| s.to_string()).collect(), idx, b)),
             2 => (any::<bool>(), 0u8..7, vec(inner.clone(), 1..4)).prop_map(|(t, f, b)| N::If(t, f, b)),
             1 => (2u8..6).prop_map(|n| N::UseChain(0, n)),
-            1 => vec(prop_oneof![Just("1"), Just("'two'"), Just("3.5"), Just("'x'"), Just("-4"), Just("'de luxe'"), Just("''")], 1..5).prop_map(|items| N::ForMixed(0, items.into_iter().map(|s| s.to_string()).collect())),
+            1 => vec(prop_oneof![Just("1"), Just("'two'"), Just("3.5"), Just("'x'"), Just("-4"), Just("'de luxe'"), Just("''"), Just("' padded '"), Just("'total: '")], 1..5).prop_map(|items| N::ForMixed(0, items.into_iter().map(|s| s.to_string()).collect())),
             1 => vec(inner.clone(), 1..4).prop_map(N::Group),
         ]
     })
